@@ -39,6 +39,22 @@ theorem c05_serializable (cls : Classifier) (cut : Cut) (hc : cut.Faithful cls) 
   obtain ⟨ac, rfl, ha⟩ := rstar_actstar cls cut hc ac0 rc hr
   exact ⟨ac, rfl, ha⟩
 
+/-- **The same, with the order made explicit.**  There is a trace `tr` — a list of (thread, action) pairs — such that
+    (i) for every thread, the actions it ran, in order, followed by those it has not yet run are exactly its program:
+    the trace is an interleaving of the threads' programs in which no action is lost, duplicated or reordered;
+    (ii) the stores and every thread's return values are those of the sequential reference `runTrace`, which applies
+    the C04 region bodies one after the other in trace order. -/
+theorem c05_final_state_is_sequential_run (cls : Classifier) (cut : Cut) (hc : cut.Faithful cls) (ac0 : ACfg)
+    (c : Cfg Loc Store) (hs : Star Step (ac0.toRCfg cut).toCfg c) (hq : c.quiescent) :
+    ∃ ac tr, c = (ac.toRCfg cut).toCfg ∧
+      (∀ t, proj t tr ++ todoAt ac t = todoAt ac0 t) ∧
+      ac.st = (runTrace cls ⟨ac0.st, locAt ac0⟩ tr).st ∧
+      (∀ t, t < ac.threads.length → locAt ac t = (runTrace cls ⟨ac0.st, locAt ac0⟩ tr).locs t) := by
+  obtain ⟨ac, hceq, hstar⟩ := c05_serializable cls cut hc ac0 c hs hq
+  obtain ⟨tr, hrun⟩ := actstar_run cls ac0 ac hstar
+  exact ⟨ac, tr, hceq, (actrun_proj cls ac0 ac tr hrun).2, (actrun_runTrace cls ac0 ac tr hrun).1,
+    (actrun_runTrace cls ac0 ac tr hrun).2⟩
+
 /-- **No deadlock**: no reachable configuration with unfinished work is stuck — opposite-direction transfers
     included, since no thread ever waits for a lock while holding one. -/
 theorem c05_deadlock_free (cut : Cut) (ac0 : ACfg) (c : Cfg Loc Store)
